@@ -468,3 +468,112 @@ Proof.
     apply in_map_iff in Hin as (e & E & Hin). exists e. split; auto. rewrite E. apply Z.eqb_refl. }
   pose proof (HT (ALoop l AltQueue)) as H. cbn in H. unfold step_loop in H. rewrite Hn, Hpc, Hd in H. discriminate.
 Qed.
+
+(* ------------------------------------------------------------------ *)
+(* Arrival order, for the repaired code ([fixed c = true]).
+   Invariant O: the current loop is the only consumer, so
+        pushed messages = commits ++ [message dequeued but not yet committed] ++ queue ++ to-push
+   Invariant B (runs in which no TryToReplaceLoop executes while the current loop stands between
+   readingMessages.Store(false) and the call of the handler, [calm]):
+        commits = dispatched ++ [message committed but not yet handed to its handler]           *)
+
+Definition dheld (o : option loop) : list Z :=
+  match o with Some lp => match l_pc lp with PDeq m => [m] | _ => [] end | None => [] end.
+Definition bheld (o : option loop) : list Z :=
+  match o with Some lp => match l_pc lp with PBusy m => [m] | _ => [] end | None => [] end.
+
+Definition OInv (msgs : list Z) (s : st) : Prop :=
+  msgs = commits s ++ dheld (nth_error (loops s) (cur s)) ++ queue s ++ prod s.
+
+Lemma fixed_consumer c s l lp :
+  fixed c = true -> Inv c s -> nth_error (loops s) l = Some lp ->
+  (l_pc lp = PSelect \/ exists m, l_pc lp = PDeq m) -> l = cur s.
+Proof.
+  intros Hf [_ Hall] Hn Hpc. specialize (Hall _ _ Hn). rewrite Hf in Hall.
+  destruct (Nat.eqb l (cur s)) eqn:E; [now apply Nat.eqb_eq in E|].
+  unfold okl, old_ok in Hall. apply andb_true_iff in Hall as [_ Hall]. apply andb_true_iff in Hall as [_ Hall].
+  cbn in Hall. destruct Hpc as [Hpc|[m Hpc]]; rewrite Hpc in Hall; discriminate.
+Qed.
+
+Lemma nth_upd_cur {A} (f : option A -> list Z) l cu (lp x : A) ls :
+  nth_error ls l = Some lp -> f (Some lp) = f (Some x) ->
+  f (nth_error (upd l x ls) cu) = f (nth_error ls cu).
+Proof.
+  intros Hn Hf. destruct (Nat.eq_dec l cu) as [->|Hne].
+  - rewrite nth_error_upd_same by (eapply nth_error_lt; eauto). now rewrite Hn.
+  - now rewrite nth_error_upd_other.
+Qed.
+
+Definition cur_rd_ok (s : st) : Prop := forall lc, nth_error (loops s) (cur s) = Some lc -> rd_ok lc = true.
+
+Lemma Inv_cur_rd_ok c s : Inv c s -> cur_rd_ok s.
+Proof.
+  intros [_ Hall] lc Hn. specialize (Hall _ _ Hn). unfold okl in Hall. now apply andb_true_iff in Hall as [H _].
+Qed.
+
+Lemma cur_rd_ok_set_pc s l lp p :
+  cur_rd_ok s -> nth_error (loops s) l = Some lp ->
+  rd_ok (mkLoop (l_done lp) (l_reading lp) p) = rd_ok lp -> cur_rd_ok (set_pc s l lp p).
+Proof.
+  intros H Hn Hr lc. unfold set_pc; cbn. destruct (Nat.eq_dec l (cur s)) as [->|Hne].
+  - rewrite nth_error_upd_same by (eapply nth_error_lt; eauto). intro E. injection E as <-. rewrite Hr. auto.
+  - rewrite nth_error_upd_other by auto. apply H.
+Qed.
+
+Lemma nth_new_cur (ls : list loop) cu x y : nth_error (upd cu x ls ++ [y]) (length ls) = Some y.
+Proof. rewrite nth_error_app2 by (rewrite length_upd; lia). rewrite length_upd, Nat.sub_diag. reflexivity. Qed.
+
+Lemma OInv_try_replace msgs s : cur_rd_ok s -> OInv msgs s -> OInv msgs (try_replace s).
+Proof.
+  intros Hrd HO. destruct (try_replace_cases s) as [->|(lc & Hn & Hr & ->)]; auto.
+  unfold OInv in *. cbn. rewrite nth_new_cur. cbn. rewrite Hn in HO. cbn in HO.
+  specialize (Hrd _ Hn). unfold rd_ok in Hrd. rewrite Hr in Hrd.
+  destruct (l_pc lc); cbn in *; auto; discriminate.
+Qed.
+
+Lemma OInv_step c msgs s a s' :
+  fixed c = true -> Inv c s -> OInv msgs s -> step c s a = Some s' -> OInv msgs s'.
+Proof.
+  intros Hf HI HO HS. pose proof (Inv_cur_rd_ok _ _ HI) as Hrd. apply step_Step in HS.
+  destruct HS as [m r Hp Hl | Hc | k He | l lp Hn Hpc Hd | l lp Hn Hpc Hcl | l lp m q Hn Hpc Hq
+                 | l lp m a Hn Hpc | l lp m a Hn Hpc | l lp m a Hn Hpc | l lp m ops a Hn Hpc
+                 | l lp m r ops a Hn Hpc | l lp m r ops a Hn Hpc Hdl | l lp a Hn Hpc].
+  - unfold OInv in *. cbn. rewrite Hp in HO. rewrite <- !app_assoc. exact HO.
+  - exact HO.
+  - apply OInv_try_replace; auto.
+  - unfold OInv in *. cbn. rewrite (nth_upd_cur dheld _ _ lp); auto. cbn. now rewrite Hpc.
+  - unfold OInv in *. cbn. rewrite (nth_upd_cur dheld _ _ lp); auto. cbn. now rewrite Hpc.
+  - assert (l = cur s) by (eapply fixed_consumer; eauto). subst l.
+    unfold OInv in *. cbn. rewrite nth_error_upd_same by (eapply nth_error_lt; eauto).
+    rewrite Hn, Hq in HO. cbn in *. rewrite Hpc in HO. exact HO.
+  - assert (l = cur s) by (eapply fixed_consumer; eauto). subst l.
+    unfold OInv in *. cbn. rewrite nth_error_upd_same by (eapply nth_error_lt; eauto).
+    rewrite Hn in HO. cbn in *. rewrite Hpc in HO. rewrite <- !app_assoc. exact HO.
+  - unfold OInv in *. cbn. rewrite (nth_upd_cur dheld _ _ lp); auto. cbn. now rewrite Hpc.
+  - unfold OInv in *. cbn. rewrite (nth_upd_cur dheld _ _ lp); auto. cbn. now rewrite Hpc.
+  - apply OInv_try_replace.
+    + apply cur_rd_ok_set_pc; auto. unfold rd_ok; cbn. now rewrite Hpc.
+    + unfold OInv in *. cbn. rewrite (nth_upd_cur dheld _ _ lp); auto. cbn. now rewrite Hpc.
+  - apply OInv_try_replace.
+    + apply cur_rd_ok_set_pc; auto. unfold rd_ok; cbn. now rewrite Hpc.
+    + unfold OInv in *. cbn. rewrite (nth_upd_cur dheld _ _ lp); auto. cbn. now rewrite Hpc.
+  - unfold OInv in *. cbn. rewrite (nth_upd_cur dheld _ _ lp); auto. cbn. now rewrite Hpc.
+  - unfold OInv in *. cbn. rewrite (nth_upd_cur dheld _ _ lp); auto. cbn. rewrite Hpc.
+    now destruct (fixed c && l_done lp).
+Qed.
+
+Lemma OInv_init msgs k : OInv msgs (init msgs k).
+Proof. reflexivity. Qed.
+
+Lemma InvO_run c msgs k sched s :
+  fixed c = true -> run c (init msgs k) sched = Some s -> Inv c s /\ OInv msgs s.
+Proof.
+  intro Hf. apply (run_invariant c (fun s => Inv c s /\ OInv msgs s)).
+  - intros s0 a s' [HI HO] HS. split; [eapply Inv_step; eauto | eapply OInv_step; eauto].
+  - split; [apply Inv_init | apply OInv_init].
+Qed.
+
+(* the order in which messages are committed to their handlers (MarkBusy) is the arrival order: all schedules *)
+Theorem commit_in_order c msgs k sched s :
+  fixed c = true -> run c (init msgs k) sched = Some s -> exists rest, msgs = commits s ++ rest.
+Proof. intros Hf HR. destruct (InvO_run _ _ _ _ _ Hf HR) as [_ HO]. eexists. exact HO. Qed.
